@@ -22,6 +22,7 @@ type World struct {
 	Other  string // an unrelated directory                 Root/other
 	IO     string // captured stdout/stderr per invocation  Root/io
 	NumCPU int
+	Level  string // "" / "L2": in-process CLI under the simulator; "L3": the real binary as a child process
 
 	hashLeakBase int
 }
